@@ -38,6 +38,16 @@ def long_recipes(rng, n):
         c = dict(len=L, allow=rng.choice([3, 7, 15, 4]), require=rng.choice([0, 4, 12, 5]), exclude=rng.choice([0, 16]), allowChars=[],
                  requireSets=sets, excludeChars=[])
         out.append(dict(kind="char", char=c, maxTrials=0, failRateOne=0, mode="paths", paths=0, maxLeaves=0, tag="long"))
+    # a 1000-character alphabet with one required character; 64-character alphabets with one required character at lengths
+    # where a missed requirement is still visible in float32
+    big = [0x4E00 + i for i in range(1000)]
+    for L in (500, 1023, 1024, 1500, 3000):
+        out.append(dict(kind="char", char=dict(len=L, allow=0, require=0, exclude=0, allowChars=big, requireSets=[[ord("x")]], excludeChars=[]),
+                        maxTrials=0, failRateOne=0, mode="paths", paths=0, maxLeaves=0, tag="long-big-alphabet"))
+    for L in (586, 600, 700, 700, 900):
+        for rq in ("q", "z"):
+            out.append(dict(kind="char", char=dict(len=L, allow=3, require=0, exclude=0, allowChars=[ord(c) for c in "0123456789!"], requireSets=[[ord(rq)]],
+                                                   excludeChars=[]), maxTrials=0, failRateOne=0, mode="paths", paths=0, maxLeaves=0, tag="long-tiny-required"))
     return out
 
 
@@ -64,6 +74,8 @@ def run(ctx):
     scen += overlap_recipes(rng, 300 if quick else 6000, 64)
     scen += long_recipes(rng, 16 if quick else 200)
     files, cells, leaves = charfam.run_scenarios(ctx, scen, "c07", shards=vlib.NCPU)
+    sf, sc_, sl = charfam.run_sequences(ctx, charfam.collision_sequences(), "c07")
+    files, cells, leaves = files + sf, cells + sc_, leaves + sl
     verdicts, decided = charfam.validate(ctx, files)
     ctx.evaluations = cells
     seen = set()
